@@ -277,7 +277,7 @@ Definition eval_checksig_tapscript (c : cfg) (e : see) (sig key : bytes) : see *
       else (e, false) in
   let '(e1, assert_failed) := after_weight in
   if assert_failed then (e1, SCrash CRASH_ASSERT, success)
-  else if success && (ed_weight_left (e_ed e1) <? 0) then (set_err e1 SCRIPT_ERR_TAPSCRIPT_VALIDATION_WEIGHT, SErr, success)
+  else if success && cmp_eval site_weight_exhausted (ed_weight_left (e_ed e1)) 0 then (set_err e1 SCRIPT_ERR_TAPSCRIPT_VALIDATION_WEIGHT, SErr, success)
   else if zlen key =? 0 then (set_err e1 SCRIPT_ERR_PUBKEYTYPE, SErr, success)
   else if zlen key =? 32 then
     if success then
